@@ -321,6 +321,8 @@ pub uninterp spec fn slab_ss(s: SymbolSlab) -> int;
     u.raw(SPEC)
     u.raw('verus! {')
     v_oti.int_div_ceil(u)
+    v_part.partition(u, external=True)
+    u.trust('partition contract: proved on the real body in V-PART; assumed here')
     const_fns(u)
     # --- slab operations used to build D (contracts proved in V-SLAB)
     u.raw('''
@@ -533,7 +535,145 @@ fn fused_inverse_mul_symbols_no_hdpc<T: BinaryMatrix>(matrix: T, symbols: Symbol
              4: {'spec': a4, 'body_top': SRC_STEP}, 5: {'spec': a5, 'before': SRC_DONE}, 6: {'spec': a6, 'body_top': 'proof { reveal(sbd_inv); }'},
              7: {'spec': b4, 'body_top': SRC_STEP}, 8: {'spec': b5, 'before': SRC_DONE}, 9: {'spec': b6, 'body_top': 'proof { reveal(sbd_inv); }'},
          })
+    # glue for rule D5: decode(iter::once(p)) == decode_step(p); decode_tail()   (definitional for a one-element iterator)
+    u.raw("""
+    fn decode_once(&mut self, packet: EncodingPacket) -> (r: Option<Vec<u8>>)
+        requires sbd_inv(*old(self)), packet.payload_id.source_block_number == old(self).source_block_id,
+                 packet.data@.len() == old(self).symbol_size as int, packet.payload_id.encoding_symbol_id < 16777216,
+                 old(self).symbol_size >= 1, old(self).symbol_alignment >= 1, old(self).symbol_size as int % old(self).symbol_alignment as int == 0,
+                 1 <= old(self).num_sub_blocks as int <= old(self).symbol_size as int / old(self).symbol_alignment as int,
+                 old(self).repair_packets@.len() < 16777216,
+        ensures sbd_inv(*final(self)), sbd_same_params(*old(self), *final(self)),
+                exists |mid: SourceBlockDecoder| #[trigger] step_spec(*old(self), mid, packet) && sbd_same_received(mid, *final(self))
+                    && match r { Some(v) => Some(v@), None => None } == answer_spec(mid),
+    {
+        self.decode_step(packet);
+        let ghost mid = *self;
+        proof { reveal(sbd_inv); }
+        let r = self.decode_tail();
+        proof { lemma_inv_frame(mid, *self); }
+        r
+    }
+""", label='rule D5 glue: decode(iter::once(p)) = decode_step(p); decode_tail()')
+    u.raw('}')   # end impl SourceBlockDecoder
+    # ---------------- object decoder
+    u.struct('src/decoder.rs', 'Decoder')
+    u.raw(v_blocks.SPEC.replace('global size_of usize == 8;', '').replace('verus! {', '', 1).rsplit('} // verus!', 1)[0], label='block layout spec (shared with V-BLOCKS)')
+    u.raw("""
+pub open spec fn blocks_all_some(b: Seq<Option<Vec<u8>>>, n: nat) -> bool
+    decreases n,
+{ if n == 0 { true } else { b[n - 1].is_some() && blocks_all_some(b, (n - 1) as nat) } }
+pub open spec fn blocks_concat(b: Seq<Option<Vec<u8>>>, n: nat) -> Seq<u8>
+    decreases n,
+{ if n == 0 { Seq::empty() } else { blocks_concat(b, (n - 1) as nat) + (if b[n - 1].is_some() { b[n - 1].unwrap()@ } else { Seq::empty() }) } }
+// what the object decoder answers, as a function of the memoised blocks only (C01: never longer than F; C08: interface agreement)
+pub open spec fn result_spec(d: Decoder) -> Option<Seq<u8>> {
+    if blocks_all_some(d.blocks@, d.blocks@.len()) {
+        let all = blocks_concat(d.blocks@, d.blocks@.len());
+        Some(if all.len() > d.config.transfer_length as int { all.subrange(0, d.config.transfer_length as int) } else { all })
+    } else { None }
+}
+pub open spec fn sbd_params_ok(d: SourceBlockDecoder, c: ObjectTransmissionInformation) -> bool {
+    d.symbol_size == c.symbol_size && d.num_sub_blocks == c.num_sub_blocks && d.symbol_alignment == c.symbol_alignment
+    && d.symbol_size >= 1 && d.symbol_alignment >= 1 && d.symbol_size as int % d.symbol_alignment as int == 0
+    && 1 <= d.num_sub_blocks as int <= d.symbol_size as int / d.symbol_alignment as int
+}
+pub open spec fn cfg_full_ok(c: ObjectTransmissionInformation) -> bool {
+    cfg_ok(c) && c.symbol_alignment >= 1 && c.symbol_size as int % c.symbol_alignment as int == 0
+    && 1 <= c.num_sub_blocks as int <= c.symbol_size as int / c.symbol_alignment as int
+}
+pub open spec fn dec_wf(d: Decoder) -> bool {
+    let z = d.config.num_source_blocks as int;
+    let kt = kt_of(d.config);
+    &&& cfg_full_ok(d.config)
+    &&& d.block_decoders@.len() == z && d.blocks@.len() == z
+    &&& forall |b: int| 0 <= b < z ==> sbd_inv(#[trigger] d.block_decoders@[b]) && sbd_params_ok(d.block_decoders@[b], d.config)
+            && d.block_decoders@[b].source_block_id as int == b
+            // block sizes follow Partition[Kt, Z]: the first ZL blocks have KL symbols, the others KS
+            && d.block_decoders@[b].source_block_symbols as int == (if b < kt - (kt / z) * z { ceil_div(kt, z) } else { kt / z })
+}
+// effect of delivering one packet to the object decoder (decode and add_new_packet share it: interface agreement, C08)
+pub open spec fn dec_step_ok(o: Decoder, n: Decoder, p: EncodingPacket) -> bool {
+    let bn = p.payload_id.source_block_number as int;
+    &&& dec_wf(n) && n.config == o.config
+    &&& forall |b: int| 0 <= b < o.blocks@.len() && b != bn ==> #[trigger] n.blocks@[b] == o.blocks@[b] && n.block_decoders@[b] == o.block_decoders@[b]
+    // memoisation: once a block has an answer it never changes, and later packets for it are ignored
+    &&& (o.blocks@[bn].is_some() ==> n.blocks@ == o.blocks@ && n.block_decoders@ == o.block_decoders@)
+    &&& (o.blocks@[bn].is_none() ==> exists |mid: SourceBlockDecoder| #[trigger] step_spec(o.block_decoders@[bn], mid, p)
+             && sbd_same_received(mid, n.block_decoders@[bn])
+             && (match n.blocks@[bn] { Some(v) => Some(v@), None => None }) == answer_spec(mid))
+}
+#[verifier::external_body]
+fn verif_none_blocks(n: usize) -> (r: Vec<Option<Vec<u8>>>)
+    ensures r@.len() == n as int, forall |i: int| 0 <= i < n as int ==> (#[trigger] r@[i]).is_none(),
+{ unimplemented!() }
+#[verifier::external_body]
+fn verif_extend_from_ref(v: &mut Vec<u8>, b: &Vec<u8>)
+    ensures final(v)@ == old(v)@ + b@,
+{ unimplemented!() }
+""", label='object decoder spec')
+    u.trust('Vec::<u8>::extend(&Vec<u8>) appends the bytes (rule S2: call rewritten to a trusted model function); vec![None; n] model for Vec<Option<Vec<u8>>>')
+    u.raw("""
+pub proof fn lemma_not_all_some(b: Seq<Option<Vec<u8>>>, n: nat, i: int)
+    requires 0 <= i < n <= b.len(), b[i].is_none(),
+    ensures !blocks_all_some(b, n),
+    decreases n,
+{ if i < n - 1 { lemma_not_all_some(b, (n - 1) as nat, i); } }
+pub proof fn lemma_all_some_at(b: Seq<Option<Vec<u8>>>, n: nat, i: int)
+    requires 0 <= i < n <= b.len(), blocks_all_some(b, n),
+    ensures b[i].is_some(),
+    decreases n,
+{ if i < n - 1 { lemma_all_some_at(b, (n - 1) as nat, i); } }
+""", label='lemmas on the memoised block list')
+    u.raw('impl Decoder {')
+    mk = ('invariant cfg_full_ok(config), kt as int == kt_of(config), kl as int == ceil_div(kt as int, config.num_source_blocks as int), ks as int == kt as int / config.num_source_blocks as int,'
+          ' zl as int == kt as int - (ks as int) * config.num_source_blocks as int, zl as int + zs as int == config.num_source_blocks as int, kl <= 56403, ks <= kl,'
+          ' decoders@.len() == i as int,'
+          ' forall |b: int| 0 <= b < i as int ==> sbd_inv(#[trigger] decoders@[b]) && sbd_params_ok(decoders@[b], config) && decoders@[b].source_block_id as int == b'
+          ' && decoders@[b].source_block_symbols as int == (if b < zl as int { kl as int } else { ks as int }),')
+    u.fn('src/decoder.rs', 'new', impl='impl Decoder', ret='r',
+         requires=['cfg_full_ok(config)'],
+         ensures=['dec_wf(r)', 'r.config == config', 'forall |b: int| 0 <= b < r.blocks@.len() ==> (#[trigger] r.blocks@[b]).is_none()'],
+         subst=[('blocks: vec![None; (zl + zs) as usize],', 'blocks: verif_none_blocks((zl + zs) as usize),', 'S1-vec-from-elem-None'),
+                ('let mut decoders = vec![];', 'let mut decoders: Vec<SourceBlockDecoder> = vec![];', 'type-annotation')],
+         inserts=[('let kt = int_div_ceil', 'before', 'proof { lemma_kt_bounds(config); }'),
+                  ('let mut decoders', 'before', 'proof { lemma_partition(kt as int, config.num_source_blocks as int); lemma_ceil_div_le(kt as int, config.num_source_blocks as int, 56403); }')],
+         loops={0: {'spec': mk + ' i <= zl,', 'body_top': 'proof { lemma_mul_div(kl as int, config.symbol_size as int); }'},
+                1: {'spec': mk + ' zl <= i, i <= zl + zs,', 'body_top': 'proof { lemma_mul_div(ks as int, config.symbol_size as int); }'}})
+    PKT_REQ = ['dec_wf(*old(self))', '(packet.payload_id.source_block_number as int) < old(self).config.num_source_blocks as int',
+               'packet.data@.len() == old(self).config.symbol_size as int', 'packet.payload_id.encoding_symbol_id < 16777216',
+               'old(self).block_decoders@[packet.payload_id.source_block_number as int].repair_packets@.len() < 16777216']
+    STATE_ENS = ['dec_step_ok(*old(self), *final(self), packet)']
+    COMMON_SUBST = [('.decode(iter::once(packet));', '.decode_once(packet);', 'D5c-once')]
+    RES_RESUBST = [(r'for block in self\.blocks\.iter\(\) \{', 'for block in verif_it: self.blocks.iter() {', 'name-iterator'),
+                   (r'result\.extend\(block\);', 'verif_extend_from_ref(&mut result, block);', 'S2-extend-ref')]
+    RES_LOOPS = {0: {'spec': 'invariant [?packet: dec_step_ok(*old(self), *self, packet), ?] blocks_all_some(self.blocks@, verif_it.index@ as nat), verif_it.index@ <= self.blocks@.len(),',
+                     'body_top': 'proof { if block.is_none() { lemma_not_all_some(self.blocks@, self.blocks@.len(), verif_it.index@); } }'},
+                 1: {'spec': 'invariant [?packet: dec_step_ok(*old(self), *self, packet), ?] result@ == blocks_concat(self.blocks@, verif_k as nat), blocks_all_some(self.blocks@, self.blocks@.len()),',
+                     'body_top': 'proof { lemma_all_some_at(self.blocks@, self.blocks@.len(), verif_k as int); }'}}
+    u.fn('src/decoder.rs', 'decode', impl='impl Decoder', ret='r',
+         rules=['D2'], subst=COMMON_SUBST, resubst=RES_RESUBST,
+         requires=PKT_REQ, ensures=STATE_ENS + ['match r { Some(v) => Some(v@), None => None } == result_spec(*final(self))'],
+         opt_inserts=[('let mut result = vec![];', 'replace', 'let mut result: Vec<u8> = vec![];')],
+         loops=RES_LOOPS)
+    u.fn('src/decoder.rs', 'add_new_packet', impl='impl Decoder', ret='r',
+         subst=COMMON_SUBST, requires=PKT_REQ, ensures=STATE_ENS)
+    u.fn('src/decoder.rs', 'get_result', impl='impl Decoder', ret='r',
+         rules=['D2'], resubst=RES_RESUBST,
+         ensures=['match r { Some(v) => Some(v@), None => None } == result_spec(*self)'],
+         opt_inserts=[('let mut result = vec![];', 'replace', 'let mut result: Vec<u8> = vec![];')],
+         loops=RES_LOOPS)
     u.raw('}')
+    u.raw("""
+pub proof fn lemma_mul_div(k: int, t: int)
+    requires 0 <= k <= 56403, 1 <= t <= 65535,
+    ensures (k * t) / t == k, (k * t) == ((k * t) / t) * t, 0 <= k * t <= 56403 * 65535,
+{
+    lemma_div_multiples_vanish(k, t);
+    lemma_mul_is_commutative(k, t);
+    assert(0 <= k * t <= 56403 * 65535) by (nonlinear_arith) requires 0 <= k <= 56403, 1 <= t <= 65535;
+}
+""", label='arithmetic lemma')
     u.raw('} // verus!')
     return u
 
